@@ -173,7 +173,7 @@ def expectOf : Op → Expect
         let p := pcmOf bits ch rate frames seed
         .ok (p.wanted off) (r.getD rate) (if off = 0 then some (p.wanted 0) else none)
   | .rawAdd h d =>
-    if h.size > d.length then .exc "toolong" false else
+    if h.start + h.size > d.length then .exc "toolong" false else
     .ok ((d.drop h.start).take h.size) h.rate (if h.start = 0 ∧ h.size = d.length ∧ h.loopStart = 0 then some d else none)
 
 structure JState where
